@@ -8,6 +8,7 @@ mod rng;
 mod sexp;
 
 mod c16;
+mod c17;
 
 pub struct Cfg {
   pub property: String,
@@ -67,6 +68,7 @@ fn main() {
   std::panic::set_hook(Box::new(|_| {}));
   let rep = match cfg.property.as_str() {
     "C16" => c16::run(&cfg),
+    "C17" => c17::run(&cfg),
     p => {
       eprintln!("unknown property {}", p);
       std::process::exit(2);
